@@ -243,6 +243,11 @@ pub struct Case {
     /// None = default mode; Some(d) = -0 / -d
     pub delim: Option<u8>,
     pub via_binary: bool,
+    /// delimiter mode through the binary: how the fields travel from the reader to the command -
+    /// 0 appended in batches, 1 one per command (-n 1), 2 substituted (-I {}), 3 substituted inside a
+    /// word (-I {} with pre{}post)
+    #[serde(default)]
+    pub route: u8,
 }
 
 fn gen_input(g: &mut Gen, delim: Option<u8>) -> Vec<u8> {
@@ -374,7 +379,8 @@ pub fn gen_case(g: &mut Gen) -> Case {
     };
     let input = gen_input(g, delim);
     let chunkings = (0..g.usize_in(1, 4)).map(|_| gen_chunking(g, &input)).collect();
-    Case { input, chunkings, delim, via_binary: g.chance(1, 30) }
+    let via_binary = if delim.is_some() { g.chance(1, 12) } else { g.chance(1, 30) };
+    Case { input, chunkings, delim, via_binary, route: if delim.is_some() { g.below(4) as u8 } else { 0 } }
 }
 
 fn cut_positions(chunks: &[usize], len: usize) -> Vec<usize> {
@@ -463,6 +469,33 @@ pub fn check(ctx: &mut Ctx, c: &Case) -> Outcome {
                 if echo.out.code != Some(0) || echo.out.stdout != line {
                     return fail(format!("C05:default-echo-alters-arguments:{mode}"), format!("xargs {opts:?} (no command)\ninput {:?}\nexit {:?} stderr {:?}\nexpected stdout {:?}\nobserved stdout {:?}", lossy(input), echo.out.code, lossy(&echo.out.stderr), lossy(&line), lossy(&echo.out.stdout)));
                 }
+                // delimiter mode: the same fields, byte for byte, whichever way they reach the command
+                if c.delim.is_some() && c.route != 0 && !want.is_empty() && want.iter().all(|t| t.len() < 4000) {
+                    let mut o2 = opts.clone();
+                    let (cmd, expect): (Vec<OsString>, Vec<Vec<Vec<u8>>>) = match c.route {
+                        1 => {
+                            o2.push("-n".into());
+                            o2.push("1".into());
+                            (vec![rec_path()], want.iter().map(|t| vec![t.clone()]).collect())
+                        }
+                        2 => {
+                            o2.push("-I".into());
+                            o2.push("{}".into());
+                            (vec![rec_path(), "{}".into()], want.iter().map(|t| vec![t.clone()]).collect())
+                        }
+                        _ => {
+                            o2.push("-I".into());
+                            o2.push("@@".into());
+                            (vec![rec_path(), "pre@@post".into(), "@@".into()], want.iter().map(|t| vec![[b"pre".as_slice(), t, b"post"].concat(), t.clone()]).collect())
+                        }
+                    };
+                    let r2 = run_xargs(ctx, &o2, &cmd, input, "", BinOpts { clear_env: true, ..Default::default() });
+                    let got2: Vec<Vec<Vec<u8>>> = r2.records.iter().map(|r| r.args.clone()).collect();
+                    if r2.out.code != Some(0) || got2 != expect {
+                        let route = ["", "-n1", "-I", "-I-inside-a-word"][c.route as usize];
+                        return fail(format!("C05:delimiter-mode-bytes-altered-on-the-way-to-the-command:{route}"), format!("xargs {o2:?} {cmd:?}\ninput {:?}\nexit {:?} stderr {:?}\nexpected argv per run: {:?}\nobserved: {:?}", lossy(input), r2.out.code, lossy(&r2.out.stderr), expect.iter().map(|r| r.iter().map(|a| lossy(a)).collect::<Vec<_>>()).collect::<Vec<_>>(), got2.iter().map(|r| r.iter().map(|a| lossy(a)).collect::<Vec<_>>()).collect::<Vec<_>>()));
+                    }
+                }
                 if run.out.code != Some(0) || got != want {
                     return fail(format!("C05:binary-differs-from-reader:{mode}"), format!("input {:?}\nexit {:?} stderr {:?}\nreader tokens: {}\nrec argv: {:?}", lossy(input), run.out.code, lossy(&run.out.stderr), show(&whole), got.iter().map(|a| lossy(a)).collect::<Vec<_>>()));
                 }
@@ -486,6 +519,7 @@ pub fn check(ctx: &mut Ctx, c: &Case) -> Outcome {
         .class_if(input.len() > 4096, "longer-than-one-buffer")
         .class_if(whole.is_err(), "unterminated-quote")
         .class_if(c.via_binary, "via-binary")
+        .class_if(c.via_binary && c.delim.is_some() && c.route >= 2, "via-binary-delimiter-mode-with-I")
         .class_if(cut_inside, "cut-inside-token")
         .sample(json!({"mode": mode, "input_len": input.len(), "input_head": lossy(&input[..input.len().min(120)]), "chunkings": c.chunkings.iter().map(|c| c.iter().take(12).copied().collect::<Vec<_>>()).collect::<Vec<_>>()}))
         .ok()
